@@ -149,9 +149,9 @@ class Result:
         self.count("disagreement:" + what)
 
     def spec_fail(self, signature, what, input, observed, **kw):
-        if len(self.spec_failures) < 200:
-            self.spec_failures.append(dict(signature=signature, what=what, input=input, observed=observed, **kw))
         self.count("spec_failure:" + str(signature))
+        if self.hist["spec_failure:" + str(signature)] <= 10:   # keep at most 10 witnesses per signature
+            self.spec_failures.append(dict(signature=signature, what=what, input=input, observed=observed, **kw))
 
     def write(self, path):
         cov = dict(evaluations=self.evaluations, distinct_nontrivial=len(self.distinct), rule=self.rule,
